@@ -192,21 +192,23 @@ Qed.
 Lemma pbes2_unw_inv alg hdr jwk r :
   pbes2_unw_guard alg hdr jwk = Proceed r ->
   exists z stl kyl,
-    lookup l_p2c hdr = Some (JInt z) /\ (z <= 32768)%Z /\
+    lookup l_p2c hdr = Some (JInt z) /\ (1 <= z <= 32768)%Z /\
     sr_go (pbes2_unw_st hdr) = Some stl /\ sr_go (pbkdf2_ky jwk) = Some kyl /\
-    r = {| kr_iter := wrap32 z; kr_passl := kyl; kr_saltl := blen alg + 1 + stl |}.
+    r = {| kr_iter := z; kr_passl := kyl; kr_saltl := blen alg + 1 + stl |}.
 Proof.
   unfold pbes2_unw_guard. destruct (pbes2_idx alg); [|discriminate].
   destruct (lookup l_p2c hdr) as [pj|]; [|discriminate].
   destruct pj; simpl; try discriminate.
   change (Z.of_N p2c_max_iterations) with 32768%Z.
+  destruct (Z.ltb_spec z 1) as [L0|G0]; simpl; [discriminate|].
   destruct (Z.ltb_spec 32768 z) as [L1|G1]; [discriminate|].
   destruct (sr_go (pbes2_unw_st hdr)) as [stl|]; [|discriminate].
   intro Hp. apply pbkdf2_inv in Hp as (kyl & K & ->).
-  exists z, stl, kyl. repeat split; try assumption; reflexivity.
+  exists z, stl, kyl. rewrite wrap32_id by lia. repeat split; try assumption; try lia.
 Qed.
 
-(* a count above the maximum, an absent count, a count that is not a JSON integer: refused, nothing requested *)
+(* a count above the maximum or below 1, an absent count, a count that is not a JSON integer: refused, nothing
+   requested *)
 Lemma refuse_both alg hdr jwk :
   pbes2_unw_guard alg hdr jwk = Refuse ->
   pbes2_unw_guard alg hdr jwk = Refuse /\ iters_requested (pbes2_unw_guard alg hdr jwk) = 0%Z.
@@ -215,7 +217,7 @@ Proof. intro H. rewrite H. split; reflexivity. Qed.
 Theorem p2c_unw alg hdr jwk :
   match lookup l_p2c hdr with
   | Some (JInt z) =>
-      (32768 < z)%Z ->
+      (32768 < z \/ z < 1)%Z ->
       pbes2_unw_guard alg hdr jwk = Refuse /\ iters_requested (pbes2_unw_guard alg hdr jwk) = 0%Z
   | _ => pbes2_unw_guard alg hdr jwk = Refuse /\ iters_requested (pbes2_unw_guard alg hdr jwk) = 0%Z
   end.
@@ -224,19 +226,18 @@ Proof.
   - destruct pj; try (apply refuse_both; unfold pbes2_unw_guard; rewrite E; destruct (pbes2_idx alg); reflexivity).
     intro Hz. apply refuse_both. unfold pbes2_unw_guard. rewrite E. destruct (pbes2_idx alg); [|reflexivity].
     simpl. change (Z.of_N p2c_max_iterations) with 32768%Z.
+    destruct (Z.ltb_spec z 1) as [L0|G0]; [reflexivity|]. simpl.
     destruct (Z.ltb_spec 32768 z) as [L1|G1]; [reflexivity|lia].
   - apply refuse_both. unfold pbes2_unw_guard. rewrite E. destruct (pbes2_idx alg); reflexivity.
 Qed.
 
-(* what the unwrap guard lets through: exactly the int conversion of a count that is at most the maximum *)
+(* what the unwrap guard lets through: exactly the count of the header, which is in 1..32768 *)
 Theorem p2c_unw_passes alg hdr jwk r :
   pbes2_unw_guard alg hdr jwk = Proceed r ->
-  exists z, lookup l_p2c hdr = Some (JInt z) /\ (z <= 32768)%Z /\ kr_iter r = wrap32 z /\
-            ((-2147483648 <= z)%Z -> kr_iter r = z).
+  exists z, lookup l_p2c hdr = Some (JInt z) /\ (1 <= z <= 32768)%Z /\ kr_iter r = z.
 Proof.
   intro H. apply pbes2_unw_inv in H as (z & stl & kyl & L & Hz & _ & _ & ->).
-  exists z. simpl. repeat split; try assumption.
-  intro. apply wrap32_id. lia.
+  exists z. simpl. repeat split; try assumption; lia.
 Qed.
 
 Theorem salt alg hdr jwk r :
@@ -269,78 +270,62 @@ Qed.
 
 Lemma pbes2_wrp_inv alg hdr jwk rec r :
   pbes2_wrp_guard alg hdr jwk = Proceed (rec, r) ->
-  (1000 <= kr_iter r <= 32768)%Z /\
+  (1000 <= kr_iter r <= 32768)%Z /\ rec = JInt (kr_iter r) /\
   match lookup l_p2c hdr with
-  | None => rec = JInt 32768 /\ kr_iter r = 32768%Z
-  | Some j => rec = j /\ exists z, j = JInt z /\ kr_iter r = wrap32 z
+  | None => kr_iter r = 32768%Z
+  | Some j => j = rec
   end.
 Proof.
   unfold pbes2_wrp_guard. destruct (pbes2_idx alg) as [i|]; [|discriminate].
   change (Z.of_N p2c_max_iterations) with 32768%Z. change (Z.of_N p2c_min_iterations) with 1000%Z.
   destruct (lookup l_p2c hdr) as [j|].
   - destruct j; simpl; try discriminate.
-    destruct (Z.ltb_spec (wrap32 z) 1000) as [L0|G0]; simpl; [discriminate|].
-    destruct (Z.ltb_spec 32768 (wrap32 z)) as [L1|G1]; [discriminate|].
-    destruct (pbkdf2_guard alg jwk (wrap32 z) (pbes2_wrp_stl i)) as [|q] eqn:P; [discriminate|].
+    destruct (Z.ltb_spec z 1000) as [L0|G0]; simpl; [discriminate|].
+    destruct (Z.ltb_spec 32768 z) as [L1|G1]; [discriminate|].
+    rewrite wrap32_id by lia.
+    destruct (pbkdf2_guard alg jwk z (pbes2_wrp_stl i)) as [|q] eqn:P; [discriminate|].
     intro Hp. injection Hp as <- <-. apply pbkdf2_inv in P as (kyl & _ & ->). simpl.
-    split; [lia|]. split; [reflexivity|]. exists z. split; reflexivity.
-  - simpl.
+    split; [lia|]. split; reflexivity.
+  - simpl. rewrite wrap32_id by lia.
     destruct (pbkdf2_guard alg jwk 32768 (pbes2_wrp_stl i)) as [|q] eqn:P; [discriminate|].
     intro Hp. injection Hp as <- <-. apply pbkdf2_inv in P as (kyl & _ & ->). simpl.
     split; [lia|]. split; reflexivity.
 Qed.
 
-(* what IS true of the wrap path: the count handed to the KDF is within the range; the count recorded in the
-   header is a JSON integer congruent to it modulo 2^32 -- equal to it exactly when it fits a C int *)
+(* the wrap path: the count handed to the KDF is within 1000..32768 and is exactly the count recorded in the
+   produced header (the supplied one when there is one, the maximum otherwise) *)
 Theorem p2c_wrp alg hdr jwk rec r :
   pbes2_wrp_guard alg hdr jwk = Proceed (rec, r) ->
-  (1000 <= kr_iter r <= 32768)%Z /\
-  exists z, rec = JInt z /\ kr_iter r = wrap32 z /\
-            ((-2147483648 <= z < 2147483648)%Z -> z = kr_iter r /\ (1000 <= z <= 32768)%Z).
+  (1000 <= kr_iter r <= 32768)%Z /\ rec = JInt (kr_iter r) /\
+  match lookup l_p2c hdr with None => kr_iter r = 32768%Z | Some j => j = rec end.
+Proof. exact (pbes2_wrp_inv alg hdr jwk rec r). Qed.
+
+(* a supplied count outside 1000..32768, of whatever size, or a supplied value that is not an integer: refused *)
+Theorem p2c_wrp_refuses alg hdr jwk :
+  match lookup l_p2c hdr with
+  | Some (JInt z) => (z < 1000 \/ 32768 < z)%Z -> pbes2_wrp_guard alg hdr jwk = Refuse
+  | Some _ => pbes2_wrp_guard alg hdr jwk = Refuse
+  | None => True
+  end.
 Proof.
-  intro H. apply pbes2_wrp_inv in H as (R & H). split; [exact R|].
-  destruct (lookup l_p2c hdr) as [j|].
-  - destruct H as (-> & z & -> & E). exists z. repeat split; try assumption.
-    + rewrite E. symmetry. apply wrap32_id. assumption.
-    + rewrite wrap32_id in E by assumption. lia.
-    + rewrite wrap32_id in E by assumption. lia.
-  - destruct H as (-> & E). exists 32768%Z. rewrite E. repeat split; reflexivity || lia.
+  unfold pbes2_wrp_guard. destruct (lookup l_p2c hdr) as [j|]; [|exact I].
+  destruct j; try (destruct (pbes2_idx alg); reflexivity).
+  intro Hz. destruct (pbes2_idx alg); [|reflexivity]. simpl.
+  change (Z.of_N p2c_max_iterations) with 32768%Z. change (Z.of_N p2c_min_iterations) with 1000%Z.
+  destruct (Z.ltb_spec z 1000) as [L0|G0]; [reflexivity|]. simpl.
+  destruct (Z.ltb_spec 32768 z) as [L1|G1]; [reflexivity|lia].
 Qed.
 
-(* ... and a count outside the int range that wraps into the window is not refused: the produced header
-   carries a p2c above the maximum (which every unwrap, this library's included, refuses) *)
 Definition hdr_of_p2c (z : Z) : json :=
   JObj [(l_p2c, JInt z); (l_p2s, JStr (repeatN 65 22))].
 Definition password_jwk : json := JObj [(l_kty, JStr l_oct); (l_k, JStr [99; 71; 70; 122; 99; 51; 100; 118; 99; 109; 81])].
 
-Theorem p2c_wrp_refuted :
-  exists alg hdr jwk z r,
-    pbes2_wrp_guard alg hdr jwk = Proceed (JInt z, r) /\ (32768 < z)%Z /\ kr_iter r <> z /\ kr_iter r = 1000%Z.
-Proof.
-  exists n_pbes2_256, (hdr_of_p2c 4294968296), password_jwk, 4294968296%Z.
-  eexists. split; [vm_compute; reflexivity|]. simpl. repeat split; try reflexivity. discriminate.
-Qed.
-
 (* ---- work ------------------------------------------------------------------------------------------- *)
 
 Section Work.
-  (* PKCS5_PBKDF2_HMAC: which iteration counts it accepts.  OpenSSL >= 3 refuses a count below 1. *)
+  (* PKCS5_PBKDF2_HMAC: which iteration counts it accepts (no assumption is needed any more: the guards let
+     nothing below 1 through) *)
   Variable accepts : Z -> bool.
-  Hypothesis accepts_positive_only : forall i, (i < 1)%Z -> accepts i = false.
-
-  Lemma kdf_work_le v : (kdf_work accepts v <= Z.max 0 (iters_requested v))%Z.
-  Proof. destruct v as [|q]; simpl; [lia|]. destruct (accepts (kr_iter q)); lia. Qed.
-
-  (* zero and negative counts that fit a C int: the guard lets them through, the KDF does no work *)
-  Theorem p2c_unw_nonpositive alg hdr jwk z :
-    lookup l_p2c hdr = Some (JInt z) -> (-2147483648 <= z <= 0)%Z ->
-    kdf_work accepts (pbes2_unw_guard alg hdr jwk) = 0%Z.
-  Proof.
-    intros L Hz. destruct (pbes2_unw_guard alg hdr jwk) as [|r] eqn:E; [reflexivity|].
-    apply pbes2_unw_inv in E as (z' & stl & kyl & L' & _ & _ & _ & ->).
-    rewrite L in L'. injection L' as <-. simpl. rewrite wrap32_id by lia.
-    rewrite accepts_positive_only by lia. reflexivity.
-  Qed.
 
   Theorem work_bound_wrp alg hdr jwk :
     (0 <= kdf_work accepts (pbes2_wrp_req alg hdr jwk) <= 32768)%Z.
@@ -349,52 +334,14 @@ Section Work.
     apply pbes2_wrp_inv in E as (R & _). destruct (accepts (kr_iter r)); lia.
   Qed.
 
-  Theorem work_bound_unw alg hdr jwk z :
-    lookup l_p2c hdr = Some (JInt z) -> (-2147483648 <= z)%Z ->
+  Theorem work_bound_unw alg hdr jwk :
     (0 <= kdf_work accepts (pbes2_unw_guard alg hdr jwk) <= 32768)%Z.
   Proof.
-      intros L Hz. destruct (pbes2_unw_guard alg hdr jwk) as [|r] eqn:E; simpl; [lia|].
-      apply pbes2_unw_inv in E as (z' & stl & kyl & L' & Hm & _ & _ & ->).
-      rewrite L in L'. injection L' as <-. simpl. rewrite wrap32_id by lia.
-      destruct (accepts z) eqn:A; [|lia].
-      destruct (Z_lt_le_dec z 1) as [N|P]; [rewrite accepts_positive_only in A by lia; discriminate|lia].
-  Qed.
-
-  (* without the lower bound on the 64-bit value the only bound is the range of int *)
-  Theorem work_bound_unw_any alg hdr jwk :
-    (0 <= kdf_work accepts (pbes2_unw_guard alg hdr jwk) < 2147483648)%Z.
-  Proof.
     destruct (pbes2_unw_guard alg hdr jwk) as [|r] eqn:E; simpl; [lia|].
-    apply pbes2_unw_inv in E as (z & stl & kyl & _ & _ & _ & _ & ->). simpl.
-    pose proof (wrap32_range z).
-    destruct (accepts (wrap32 z)) eqn:A; [|lia].
-    destruct (Z_lt_le_dec (wrap32 z) 1) as [N|P]; [rewrite accepts_positive_only in A by lia; discriminate|lia].
+    apply pbes2_unw_inv in E as (z & stl & kyl & _ & Hm & _ & _ & ->). simpl.
+    destruct (accepts z); lia.
   Qed.
 End Work.
-
-(* a negative 64-bit count below -2^31 passes the (upper-bound only) test and is then converted to int:
-   -2^32 + 1000 is accepted as 1000, -2^31 - 1 requests 2^31 - 1 iterations *)
-Theorem p2c_unw_negative_refuted :
-  exists alg hdr jwk z r,
-    lookup l_p2c hdr = Some (JInt z) /\ (z < 0)%Z /\
-    pbes2_unw_guard alg hdr jwk = Proceed r /\ kr_iter r = 1000%Z /\
-    kdf_work openssl_pbkdf2_accepts (pbes2_unw_guard alg hdr jwk) = 1000%Z.
-Proof.
-  exists n_pbes2_256, (hdr_of_p2c (-4294966296)), password_jwk, (-4294966296)%Z.
-  eexists. split; [reflexivity|]. split; [reflexivity|].
-  split; [vm_compute; reflexivity|]. split; vm_compute; reflexivity.
-Qed.
-
-Theorem work_bound_unw_refuted :
-  exists alg hdr jwk z r,
-    lookup l_p2c hdr = Some (JInt z) /\ (z < 0)%Z /\
-    pbes2_unw_guard alg hdr jwk = Proceed r /\ kr_iter r = 2147483647%Z /\
-    (32768 < kdf_work openssl_pbkdf2_accepts (pbes2_unw_guard alg hdr jwk))%Z.
-Proof.
-  exists n_pbes2_256, (hdr_of_p2c (-2147483649)), password_jwk, (-2147483649)%Z.
-  eexists. split; [reflexivity|]. split; [reflexivity|].
-  split; [vm_compute; reflexivity|]. split; vm_compute; reflexivity.
-Qed.
 
 (* ---- ECDH-ES ------------------------------------------------------------------------------------------- *)
 
